@@ -45,9 +45,9 @@ func algBy(name string) *halg {
 // count byte with bounded work: decodeCount(c) * contexts must stay small in the quick tier
 func pickCountByte(g *hx.Gen, contexts int) byte {
 	r := g.R
-	maxC, lo, hi := 0x6f, 0x70, 0x9f // quick: ≤ 31<<12 = 126 976; rarely up to 31<<15 ≈ 1 MB
+	maxC, lo, hi := 0x5f, 0x60, 0x9f // quick: ≤ 31<<11 = 63 488; rarely up to 31<<15 ≈ 1 MB
 	if g.Thorough() {
-		maxC, lo, hi = 0x8f, 0x90, 0xcf // thorough: ≤ 31<<14; rarely up to 31<<18 ≈ 8 MB
+		maxC, lo, hi = 0x7f, 0x80, 0xcf // thorough: ≤ 31<<13; rarely up to 31<<18 ≈ 8 MB
 	}
 	switch r.Intn(10) {
 	case 0:
@@ -102,7 +102,7 @@ func gen(g *hx.Gen) {
 		g.Emit("cc cfg=%d", i)
 	}
 	g.Emit("cc cfg=nil")
-	n := g.Count(2500, 50000)
+	n := g.Count(2500, 20000)
 	for i := 0; i < n; i++ {
 		a := hx.Pick(r, halgs)
 		switch k := r.Intn(20); {
